@@ -98,6 +98,9 @@ type DialEvent struct {
 	Addr   string
 	Result string // ok | refused | cancelled
 	Conn   int
+	// OpenBefore: connections to Addr that the client had not closed when
+	// this dial was made.
+	OpenBefore int
 }
 
 // ServerState describes a region server.
@@ -159,6 +162,7 @@ type Cluster struct {
 	Problems []string
 
 	ZKCalls   int
+	ZKTimes   []time.Duration
 	ZKErrs    []error // consumed one per call
 	ZKHold    bool
 	MetaScans int
@@ -434,6 +438,36 @@ func (c *Cluster) OpenClientConns() map[string][]int {
 	return out
 }
 
+// ClientCloseTimes returns, per connection id, the virtual time (since the
+// cluster started) at which the client closed its end; absent = still open.
+func (c *Cluster) ClientCloseTimes() map[int]time.Duration {
+	c.mu.Lock()
+	conns := append([]*Conn(nil), c.Conns...)
+	start := c.start
+	c.mu.Unlock()
+	out := map[int]time.Duration{}
+	for _, sc := range conns {
+		for _, op := range sc.Pair.Ops() {
+			if op.Kind == "close" {
+				out[sc.ID] = op.At.Sub(start)
+				break
+			}
+		}
+	}
+	return out
+}
+
+// ConnAddrs maps connection ids to addresses.
+func (c *Cluster) ConnAddrs() map[int]string {
+	c.mu.Lock()
+	defer c.mu.Unlock()
+	out := map[int]string{}
+	for _, sc := range c.Conns {
+		out[sc.ID] = sc.Addr
+	}
+	return out
+}
+
 // Snapshot copies the logs.
 func (c *Cluster) Snapshot() (execs []Exec, dials []DialEvent, problems []string) {
 	c.mu.Lock()
@@ -459,6 +493,7 @@ func (z zkClient) LocateResource(res zk.ResourceName) (string, error) {
 	c.mu.Lock()
 	defer c.mu.Unlock()
 	c.ZKCalls++
+	c.ZKTimes = append(c.ZKTimes, c.now())
 	for c.ZKHold && !c.stopped {
 		c.cond.Wait()
 	}
@@ -529,9 +564,15 @@ func (c *Cluster) Dial(ctx context.Context, network, addr string) (net.Conn, err
 		opts = c.ConnOptions(addr, n)
 		opts.Addr = addr
 	}
+	openBefore := 0
+	for _, o := range c.Conns {
+		if o.Addr == addr && !o.Pair.ClientClosed() {
+			openBefore++
+		}
+	}
 	sc := &Conn{ID: c.nconn, Addr: addr, Pair: memconn.NewPair(opts), Opened: c.now()}
 	c.Conns = append(c.Conns, sc)
-	c.Dials = append(c.Dials, DialEvent{T: c.now(), Addr: addr, Result: "ok", Conn: sc.ID})
+	c.Dials = append(c.Dials, DialEvent{T: c.now(), Addr: addr, Result: "ok", Conn: sc.ID, OpenBefore: openBefore})
 	c.wg.Add(1)
 	c.cond.Broadcast()
 	c.mu.Unlock()
